@@ -42,6 +42,41 @@ func intToLE(v *big.Int, n int) []byte {
 	return be
 }
 
+// ed25519Oracles installs the reference verifier for stdPub and the "other key" signer (shared by
+// TestEd25519 and the subtle From*Key routes).
+func ed25519Oracles(c *sigCase, seed []byte, stdPub stded25519.PublicKey) {
+	c.ref = func(raw, effMsg []byte) bool {
+		return len(raw) == stded25519.SignatureSize && stded25519.Verify(stdPub, effMsg, raw)
+	}
+	seed2 := bytes.Clone(seed)
+	seed2[0] ^= 1
+	c.otherKeySign = func(effMsg []byte) ([]byte, error) {
+		return stded25519.Sign(stded25519.NewKeyFromSeed(seed2), effMsg), nil
+	}
+}
+
+// ed25519Candidates runs the Ed25519-specific candidates derived from the fresh raw signature.
+func (c *sigCase) ed25519Candidates(rt *rapid.T, raw, msg []byte, stdPriv stded25519.PrivateKey) {
+	// R and S regions, S made non-canonical (S+L is the same scalar mod L), lengths around 64
+	for i, name := range []string{"R", "S"} {
+		bit := rapid.IntRange(256*i, 256*(i+1)-1).Draw(rt, "flip-"+name)
+		f := bytes.Clone(raw)
+		f[bit/8] ^= 1 << uint(bit%8)
+		c.tryRaw(rt, "ed-flip-"+name, f, msg)
+	}
+	sPlusL := new(big.Int).Add(leToInt(raw[32:]), ed25519L)
+	c.tryRaw(rt, "ed-S+L", cat(raw[:32], intToLE(sPlusL, 32)), msg)
+	c.tryRaw(rt, "ed-S=0", cat(raw[:32], make([]byte, 32)), msg)
+	c.tryRaw(rt, "ed-R-only", raw[:32], msg)
+	c.tryRaw(rt, "ed-63", raw[:63], msg)
+	c.tryRaw(rt, "ed-65", cat(raw, []byte{0}), msg)
+	c.tryRaw(rt, "ed-doubled", cat(raw, raw), msg)
+	c.tryRaw(rt, "ed-swapped", cat(raw[32:], raw[:32]), msg)
+	// a signature over the message with/without the suffix, made outside Tink
+	c.tryRaw(rt, "ed-std-sign-plain", stded25519.Sign(stdPriv, msg), msg)
+	c.tryRaw(rt, "ed-std-sign-suffixed", stded25519.Sign(stdPriv, cat(msg, []byte{0})), msg)
+}
+
 // TestEd25519: the algorithm itself is delegated to crypto/ed25519 on both sides; the check decides
 // Tink's framing: prefix, the exact 64-byte length, the LEGACY suffix.
 func TestEd25519(t *testing.T) {
@@ -106,35 +141,11 @@ func TestEd25519(t *testing.T) {
 				}
 			}
 		}
-		c.ref = func(raw, effMsg []byte) bool {
-			return len(raw) == stded25519.SignatureSize && stded25519.Verify(stdPub, effMsg, raw)
-		}
-		seed2 := bytes.Clone(seed)
-		seed2[0] ^= 1
-		c.otherKeySign = func(effMsg []byte) ([]byte, error) {
-			return stded25519.Sign(stded25519.NewKeyFromSeed(seed2), effMsg), nil
-		}
+		ed25519Oracles(c, seed, stdPub)
 
 		sig, raw := c.signAndCheck(rt, msg, nil)
 		c.commonCandidates(rt, msg, sig)
-		// R and S regions, S made non-canonical (S+L is the same scalar mod L), lengths around 64
-		for i, name := range []string{"R", "S"} {
-			bit := rapid.IntRange(256*i, 256*(i+1)-1).Draw(rt, "flip-"+name)
-			f := bytes.Clone(raw)
-			f[bit/8] ^= 1 << uint(bit%8)
-			c.tryRaw(rt, "ed-flip-"+name, f, msg)
-		}
-		sPlusL := new(big.Int).Add(leToInt(raw[32:]), ed25519L)
-		c.tryRaw(rt, "ed-S+L", cat(raw[:32], intToLE(sPlusL, 32)), msg)
-		c.tryRaw(rt, "ed-S=0", cat(raw[:32], make([]byte, 32)), msg)
-		c.tryRaw(rt, "ed-R-only", raw[:32], msg)
-		c.tryRaw(rt, "ed-63", raw[:63], msg)
-		c.tryRaw(rt, "ed-65", cat(raw, []byte{0}), msg)
-		c.tryRaw(rt, "ed-doubled", cat(raw, raw), msg)
-		c.tryRaw(rt, "ed-swapped", cat(raw[32:], raw[:32]), msg)
-		// a signature over the message with/without the suffix, made outside Tink
-		c.tryRaw(rt, "ed-std-sign-plain", stded25519.Sign(stdPriv, msg), msg)
-		c.tryRaw(rt, "ed-std-sign-suffixed", stded25519.Sign(stdPriv, cat(msg, []byte{0})), msg)
+		c.ed25519Candidates(rt, raw, msg, stdPriv)
 		c.finish(rt, msg, evid.NewH().B(seed))
 	})
 }
